@@ -466,33 +466,19 @@ def _get_method(model: Model, Rr: RuleResult):
     if len(ps) != 3:
         raise AnalysisError("get_method signature changed")
     tbl, mth = ps[1], ps[2]
+    # semantics first: abstract evaluation over a table with a prefix pair and exact / mixed-case / abbreviated / unknown / callable probes
+    from ..domains import dictsem
+    try:
+        problems = dictsem.check_lookup(f.node, ps[0], tbl, mth)
+    except dictsem.Unsupported as e:
+        raise AnalysisError("get_method: body cannot be interpreted over the abstract lookup domain (%s)" % e)
+    if not problems:
+        Rr.ok(f.fq, "get_method: exact case-insensitive names return their own entry, abbreviations / unknown names / non-callables raise, a callable passes through (11 probes)")
+    else:
+        Rr.bad(f, f.node, "get_method does not implement the documented lookup: %s" % problems[0], what="; ".join(problems)[:500])
     rets = [r for r in own_nodes(f.node) if isinstance(r, ast.Return)]
-    lowered = {nm for nm, ds in function_defs(f.node).items() if ds and all(isinstance(d, ast.Call) and isinstance(d.func, ast.Attribute)
-               and d.func.attr == "lower" and ast.unparse(d.func.value) == mth for d in ds)}
-    from ..rules.solverloop import enclosing_ifs
     for r in rets:
-        v = r.value
-        if isinstance(v, ast.Subscript) and ast.unparse(v.value) == tbl:
-            key = v.slice
-            key_ok = isinstance(key, ast.Name) and key.id in lowered
-            guards = [ast.unparse(i.test) for i, inbody in enclosing_ifs(r, f.node) if inbody]
-            guarded = any(g == "%s in %s" % (ast.unparse(key), tbl) for g in guards) and any(g.startswith("isinstance(%s, str)" % mth) for g in guards)
-            what = "return %s under %s" % (ast.unparse(v), guards)
-            if key_ok and guarded:
-                Rr.ok(f.fq, what)
-            else:
-                Rr.bad(f, r, "table lookup must use the lower-cased name under `isinstance(method, str)` and a membership guard", what=what)
-        elif isinstance(v, ast.Name) and v.id == mth:
-            guards = [ast.unparse(i.test) for i, inbody in enclosing_ifs(r, f.node) if inbody]
-            # reached through elif: the chain's earlier tests are in orelse; accept a callable test
-            chain = [ast.unparse(i.test) for i, inbody in enclosing_ifs(r, f.node)]
-            if any("__call__" in g or "callable(" in g for g in chain):
-                Rr.ok(f.fq, "callable passed through unchanged")
-            else:
-                Rr.bad(f, r, "returning the caller's value must be guarded by a callable test")
-        else:
-            Rr.bad(f, r, "get_method returns something else than a table entry or the caller's callable (a silent default?)",
-                   what="return %s" % (ast.unparse(v) if v is not None else None))
+        Rr.ok(f.fq, "exit `%s` covered by the probe table" % norm_stmt(r, 60))
     # every other path raises: the function's normal exit is reachable only through returns
     cfg = CFG(f.node)
     falls = [p for p, lab in cfg.exit.pred if p.kind != "return" and lab != "exc"]
